@@ -164,3 +164,147 @@ func runKick(c map[string]any, ev map[string]any) error {
 	ev["banned"] = listed
 	return nil
 }
+
+// runMulti (C06): the account "x" (access c["a0"]) has c["n"] live sessions (logged in one after the other, from
+// different addresses); an administrator changes the account's access to c["a1"] through Set User (353) or the
+// modify branch of Update User (349) (c["edit"]); then
+//
+//	kind "kick":   the administrator sends Disconnect User with ban option c["ban"] against session number c["k"]
+//	kind "create": session number c["k"] asks for a new account with access c["want"] through request c["via"]
+//
+// Recorded: editreply / reply (reply classes), sclosed (per session: connection closed within the bounded wait), banned
+// (the target session's address is listed by a freshly loaded ban list), mem / disk (bitmap of the created account in
+// the running / a freshly loaded account manager, empty = no such account).
+func runMulti(c map[string]any, ev map[string]any) error {
+	a0, a1 := bitmapOf(c["a0"]), bitmapOf(c["a1"])
+	n, k := intOf(c["n"]), intOf(c["k"])
+	kind, _ := c["kind"].(string)
+	if n < 1 || n > 4 || k < 1 || k > n {
+		return fmt.Errorf("multi: n=%d k=%d", n, k)
+	}
+	w, err := sim.NewWorld(sim.WorldOpts{Accounts: []sim.Acct{
+		{Login: "adm", Name: "Admin", Password: "ap"},
+		{Login: "x", Name: "X", Password: "xp"},
+	}})
+	if err != nil {
+		return err
+	}
+	defer w.Close()
+	if err := setAccess(w, "adm", sim.AllAccess()); err != nil {
+		return err
+	}
+	if err := setAccess(w, "x", a0); err != nil {
+		return err
+	}
+	var ss []*sim.Client
+	for i := 0; i < n; i++ {
+		cl := w.Dial("")
+		if rep, err := cl.Login(sim.LoginOpts{Login: "x", Password: "xp", Name: fmt.Sprintf("X%d", i+1)}); err != nil || rep.Err != 0 {
+			return fmt.Errorf("multi: login x#%d: %v err=%d", i+1, err, rep.Err)
+		}
+		ss = append(ss, cl)
+	}
+	adm := w.Dial("")
+	if rep, err := adm.Login(sim.LoginOpts{Login: "adm", Password: "ap", Name: "Admin"}); err != nil || rep.Err != 0 {
+		return fmt.Errorf("multi: login adm: %v err=%d", err, rep.Err)
+	}
+	replyOf := func(cl *sim.Client, id uint32, settleErr error) (string, []int) {
+		reply, etext := "none", []int{}
+		for _, f := range cl.Drain() {
+			if f.IsReply == 1 && f.ID == id {
+				reply = "ok"
+				if f.Err != 0 {
+					reply = "err"
+				}
+				if b, ok := f.Get(sim.FError); ok {
+					etext = sim.Ints(b)
+				}
+				break
+			}
+		}
+		if settleErr != nil && reply == "none" {
+			reply = "closed"
+		}
+		return reply, etext
+	}
+	// the edit
+	var id uint32
+	switch intOf(c["edit"]) {
+	case 353:
+		id = adm.Send(sim.TSetUser, sim.Fld(sim.FUserLogin, sim.Obfuscate([]byte("x"))), sim.Fld(sim.FUserName, []byte("X")),
+			sim.Fld(sim.FUserPassword, []byte{0}), sim.Fld(sim.FUserAccess, a1[:]))
+	case 349:
+		id = adm.Send(sim.TUpdateUser, sim.Fld(sim.FData, encSub(sim.Fld(sim.FUserLogin, sim.Obfuscate([]byte("x"))),
+			sim.Fld(sim.FUserName, []byte("X")), sim.Fld(sim.FUserPassword, []byte{0}), sim.Fld(sim.FUserAccess, a1[:]))))
+	default:
+		return fmt.Errorf("multi: edit %v", c["edit"])
+	}
+	ev["editreply"], _ = replyOf(adm, id, adm.Settle())
+	for _, cl := range ss {
+		if err := cl.Settle(); err != nil {
+			return fmt.Errorf("multi: settle session: %w", err)
+		}
+		cl.Drain()
+	}
+	ev["banned"] = false
+	ev["mem"], ev["disk"] = []int{}, []int{}
+	target := ss[k-1]
+	switch kind {
+	case "kick":
+		fields := []sim.F{sim.Fld(sim.FUserID, sim.U16(target.ID()))}
+		if ban := intOf(c["ban"]); ban != 0 {
+			fields = append(fields, sim.Fld(sim.FOptions, sim.U16(ban)))
+		}
+		id := adm.Send(sim.TDisconnectUser, fields...)
+		reply, etext := replyOf(adm, id, adm.Settle())
+		ev["reply"], ev["etext"] = reply, etext
+		if reply == "ok" {
+			target.WaitServerDone(6 * time.Second)
+		} else {
+			target.WaitServerDone(1800 * time.Millisecond)
+		}
+		for _, cl := range ss {
+			if cl != target {
+				cl.WaitServerDone(300 * time.Millisecond)
+			}
+		}
+		bl, err := verifexport.NewBanFile(filepath.Join(w.Config, "Banlist.yaml"))
+		if err != nil {
+			return fmt.Errorf("multi: reload ban list: %w", err)
+		}
+		listed, _ := bl.IsBanned(strings.Split(target.Addr, ":")[0])
+		ev["banned"] = listed
+	case "create":
+		want := bitmapOf(c["want"])
+		var id uint32
+		switch intOf(c["via"]) {
+		case 350:
+			id = target.Send(sim.TNewUser, sim.Fld(sim.FUserLogin, sim.Obfuscate([]byte("newacct"))), sim.Fld(sim.FUserName, []byte("Created")),
+				sim.Fld(sim.FUserPassword, []byte("pw")), sim.Fld(sim.FUserAccess, want[:]))
+		case 349:
+			id = target.Send(sim.TUpdateUser, subCreate("newacct", want))
+		default:
+			return fmt.Errorf("multi: via %v", c["via"])
+		}
+		reply, etext := replyOf(target, id, target.Settle())
+		ev["reply"], ev["etext"] = reply, etext
+		if a := w.AM.Get("newacct"); a != nil {
+			ev["mem"] = sim.Ints(a.Access[:])
+		}
+		fresh, err := verifexport.NewYAMLAccountManager(filepath.Join(w.Config, "Users"))
+		if err != nil {
+			return fmt.Errorf("multi: reload accounts: %w", err)
+		}
+		if a := fresh.Get("newacct"); a != nil {
+			ev["disk"] = sim.Ints(a.Access[:])
+		}
+	default:
+		return fmt.Errorf("multi: kind %q", kind)
+	}
+	closed := []bool{}
+	for _, cl := range ss {
+		closed = append(closed, cl.ServerDone())
+	}
+	ev["sclosed"] = closed
+	return nil
+}
